@@ -34,6 +34,8 @@ metadata methods symbolically for every child position x every valuation of the 
   R14 only nodes that are neither effectful nor streams are marked for lifting; each pass keys its tables by the node whose bind depth
       it computed
   R15 children that must be blocks are blocks (relational nodes, openers of an aggregation scope, If branches)
+  R16 per child position x is_scan: the scope (eval / agg / scan) in which names are bound and the agg/scan context switch agree with the
+      engine's Bindings(.., eval = .., agg = AggEnv.Promote|Bind|Create|Drop|NoOp, scan = ..) arm in Binds.scala (R5 compares positions only)
 Randomness needs no rule of its own: it is the ordinary variable `__rng_state` (a Ref child of the seeded node), pinned by R11/R12.
 Keying the tables by id() rather than structural equality is NOT a necessary condition (merging structurally equal nodes that have the
 same bind frame is sound) and is not demanded; keying by the WRONG node is (R14).
@@ -370,8 +372,8 @@ def _binds_names(text: str) -> bool:
     return '->' in toks or 'zip' in toks or any(tk.endswith('Bindings') and tk != 'Bindings' for tk in toks)
 
 
-def scala_binder_table() -> Dict[str, Tuple[List, bool, int]]:
-    """class -> ([(index | 'else', binds names?)], decided?, line).  index is ('c', k) or ('lenarg', pattern position)."""
+def scala_arm_table() -> Dict[str, Tuple[List, bool, int]]:
+    """class -> ([(index | 'else', normalised text of the branch)], decided?, line).  index is ('c', k) or ('lenarg', pattern position)."""
     from engines import scalalite as sl
     S = sl.load(BINDS_SCALA)
     out: Dict[str, Tuple[List, bool, int]] = {}
@@ -386,7 +388,6 @@ def scala_binder_table() -> Dict[str, Tuple[List, bool, int]]:
             if '(' not in pat:
                 continue
             name = pat[:pat.index('(')].strip()
-            close = pat.rindex(')')
             # split the guard off: `Name(args) if <guard>`
             depth = 0
             k = pat.index('(')
@@ -407,7 +408,7 @@ def scala_binder_table() -> Dict[str, Tuple[List, bool, int]]:
                 if idx is None:
                     out[name] = ([], False, line)
                 else:
-                    out[name] = ([(idx, _binds_names(S.norm(bs, be)))], True, line)
+                    out[name] = ([(idx, S.norm(bs, be))], True, line)
                 continue
             chain = _scala_branches(S, bs, be, f'{BINDS_SCALA}:{line}')
             if chain is None:
@@ -417,14 +418,211 @@ def scala_binder_table() -> Dict[str, Tuple[List, bool, int]]:
             decided = True
             for cond, text in chain:
                 if cond == 'else':
-                    branches.append(('else', _binds_names(text)))
+                    branches.append(('else', text))
                 else:
                     idx = _scala_index(cond, args)
                     if idx is None:
                         decided = False
-                    branches.append((idx, _binds_names(text)))
+                    branches.append((idx, text))
             out[name] = (branches, decided, line)
     return out
+
+
+def scala_binder_table() -> Dict[str, Tuple[List, bool, int]]:
+    """class -> ([(index | 'else', binds names?)], decided?, line).  index is ('c', k) or ('lenarg', pattern position)."""
+    return {name: ([(idx, _binds_names(text)) for idx, text in branches], decided, line) for name, (branches, decided, line) in scala_arm_table().items()}
+
+
+# ---- R16: the scope (eval / agg / scan) names are bound in, and the context switches, agree with the engine --------------------
+def _split_top(text: str, sep: str = ',') -> List[str]:
+    out, depth, cur = [], 0, ''
+    for ch in text:
+        if ch in '([{':
+            depth += 1
+        elif ch in ')]}':
+            depth -= 1
+        if ch == sep and depth == 0:
+            out.append(cur)
+            cur = ''
+        else:
+            cur += ch
+    if cur.strip():
+        out.append(cur)
+    return [x.strip() for x in out]
+
+
+def _scala_call(text: str, where: str) -> Optional[Tuple[str, Dict[str, str]]]:
+    """The (last) `Bindings(...)` / `Bindings.inFreshScope(...)` expression of an arm: (constructor, {parameter: argument text});
+    ('empty', {}) for Bindings.empty; None when there is none."""
+    t = text.strip()
+    best = None
+    for ctor in ('Bindings.inFreshScope(', 'Bindings('):
+        k = t.rfind(ctor)
+        while k > 0 and (t[k - 1].isalnum() or t[k - 1] in '._'):
+            k = t.rfind(ctor, 0, k)
+        if k >= 0 and (best is None or k > best[0]):
+            best = (k, ctor)
+    if best is None:
+        return ('empty', {}) if t.endswith('Bindings.empty') else None
+    k, ctor = best
+    depth, j = 0, k + len(ctor) - 1
+    for j in range(k + len(ctor) - 1, len(t)):
+        if t[j] in '([{':
+            depth += 1
+        elif t[j] in ')]}':
+            depth -= 1
+            if depth == 0:
+                break
+    if depth != 0 or t[j + 1:].strip() not in ('', '}'):
+        raise AnalysisError(f'{where}: unrecognised arm text after the Bindings expression: `{t[j + 1:][:40]}`')
+    params = ['bindings', 'eval', 'agg', 'scan', 'relational', 'dropEval']
+    args: Dict[str, str] = {}
+    pos = 0
+    for a in _split_top(t[k + len(ctor):j]):
+        if not a:
+            continue
+        eq = a.find('=')
+        head = a[:eq].strip() if eq > 0 else ''
+        if eq > 0 and head in params and a[eq:eq + 2] not in ('==', '=>'):
+            args[head] = a[eq + 1:].strip()
+        else:
+            if pos >= len(params):
+                raise AnalysisError(f'{where}: too many positional arguments')
+            args[params[pos]] = a
+            pos += 1
+    return ('fresh' if 'inFreshScope' in ctor else 'plain'), args
+
+
+def _scala_seq_nonempty(x: str, where: str) -> bool:
+    x = x.strip()
+    if x in ('FastSeq()', 'FastSeq.empty', 'Seq.empty', 'IndexedSeq.empty', 'ArraySeq.empty'):
+        return False
+    if x.startswith('FastSeq(') or x.replace('.', '').replace('_', '').isalnum() or ':+' in x or '+:' in x or '.zip(' in x or '.map' in x:
+        return True  # a literal with elements, a named list of type bindings (rowBindings, ...), or a list built from the children
+    raise AnalysisError(f'{where}: unrecognised sequence `{x[:50]}`')
+
+
+def _scala_aggenv(x: Optional[str], fresh: bool, is_scan: bool, where: str) -> Tuple[str, bool]:
+    """(NoOp | Drop | Promote | Bind | Create, binds names?) of an `agg =` / `scan =` argument."""
+    if x is None:
+        return ('Drop', False) if fresh else ('NoOp', False)
+    x = x.strip()
+    for neg, head in ((False, 'if (isScan)'), (True, 'if (!isScan)')):
+        if x.startswith(head):
+            rest = x[len(head):]
+            k = rest.find(' else ')
+            if k < 0:
+                raise AnalysisError(f'{where}: unrecognised conditional `{x[:50]}`')
+            then, other = rest[:k], rest[k + 6:]
+            return _scala_aggenv(then if (is_scan != neg) else other, fresh, is_scan, where)
+    if fresh:
+        if x == 'None':
+            return ('Drop', False)
+        if x.startswith('Some(') and x.endswith(')'):
+            return ('Create', _scala_seq_nonempty(x[5:-1], where))
+        raise AnalysisError(f'{where}: unrecognised aggregation environment `{x[:50]}`')
+    for k in ('NoOp', 'Drop', 'Promote'):
+        if x == f'AggEnv.{k}':
+            return (k, False)
+    for k in ('Bind', 'Create'):
+        if x.startswith(f'AggEnv.{k}(') and x.endswith(')'):
+            return (k, _scala_seq_nonempty(x[len(k) + 8:-1], where))
+    raise AnalysisError(f'{where}: unrecognised aggregation environment `{x[:50]}`')
+
+
+def _scala_scopes(text: str, is_scan: bool, where: str) -> Dict[str, object]:
+    """{'eval': names bound in the value scope?, 'agg': .., 'scan': .., 'promote_agg': child evaluated in the aggregation scope?, 'promote_scan': ..}"""
+    r = _scala_call(text, where)
+    if r is None:
+        raise AnalysisError(f'{where}: no Bindings expression')
+    kind, args = r
+    if kind == 'empty':
+        return {'eval': False, 'agg': False, 'scan': False, 'promote_agg': False, 'promote_scan': False}
+    fresh = kind == 'fresh'
+    agg = _scala_aggenv(args.get('agg'), fresh, is_scan, where)
+    scan = _scala_aggenv(args.get('scan'), fresh, is_scan, where)
+    has_b = 'bindings' in args and _scala_seq_nonempty(args['bindings'], where)
+    rel = 'relational' in args and _scala_seq_nonempty(args['relational'], where)
+    if 'eval' in args and _scala_seq_nonempty(args['eval'], where):
+        ev = True
+    elif 'eval' in args:
+        ev = has_b and not (agg[1] or scan[1] or rel)
+    else:
+        ev = has_b and not (agg[1] or scan[1] or rel)  # Bindings.apply: with nothing else given, every binding is a value binding
+    return {'eval': ev, 'agg': agg[1], 'scan': scan[1], 'promote_agg': agg[0] == 'Promote', 'promote_scan': scan[0] == 'Promote'}
+
+
+SCOPE_DEVIATIONS = {
+    # (class, child label): (facts allowed to differ, reason the Python model deliberately differs from the engine)
+    ('AggFold', 'comb_op'): ({'promote_agg', 'promote_scan'},
+                             'the engine evaluates comb_op in a fresh scope holding only the two accumulators; Python models it as an aggregation-context child with '
+                             'both names bound. AggFold.__init__ rejects a comb_op with any other free variable, so no look-up can tell the two models apart'),
+    ('AggExplode', 'agg_body'): ({'agg', 'scan'}, SCAN_BINDINGS_IGNORE_IS_SCAN['AggExplode']),
+}
+
+
+def check_scala_scopes(ctx: Ctx, t: ic.Table) -> None:
+    table = scala_arm_table()
+    SCN = 'self.is_scan'
+    for cls in t.ir_classes():
+        switching = cls in _switching_classes(t)
+        if cls not in _binder_classes(t) and not switching:
+            continue
+        if cls.name in NOT_IN_SCALA:
+            continue
+        if cls.name not in table:
+            if switching and not any(ic.binder_func(cls, f) for f in BINDER_API):
+                continue  # falls into the engine's default arm (UsesAggEnv / UsesScanEnv), compared by R6/R7
+            raise AnalysisError(f'{cls.key()}: binds names / switches context but has no arm in {BINDS_SCALA}')
+        branches, decided, line = table[cls.name]
+        if not decided:
+            continue  # reported by R5
+        atoms = _all_atoms(cls, ['renderable_uses_agg_context', 'renderable_uses_scan_context'])
+        for a in ('renderable_uses_agg_context', 'renderable_uses_scan_context'):
+            r = cls.resolve_nonroot(a)
+            if r is not None:
+                for st in r[1].body:
+                    if isinstance(st, ast.Return) and st.value is not None:
+                        for x in ic.collect_atoms_expr(st.value, r[1].args.args[1].arg):
+                            if x not in atoms:
+                                atoms.append(x)
+        lay = ic.layouts(cls)[0]
+        remap = ic.renderable_index_map(cls, lay)
+        where = f'{BINDS_SCALA}:{line}'
+        for fl in _vals(atoms):
+            is_scan = bool(fl.get(SCN, False))
+            positions = ic.renderable_positions(cls, lay) if remap is not None else _positions(cls, lay, fl)
+            for p, label in positions:
+                text = None
+                if remap is not None:
+                    # the engine indexes the flattened children: `i < init.length` <-> the first starred group
+                    continue
+                for idx, tx in branches:
+                    if idx == 'else' or (idx[0] == 'c' and p == ('c', idx[1])) or (idx[0] == 'lenarg' and p[0] == 'len' and p[2] == 0):
+                        text = tx
+                        break
+                sc = _scala_scopes(text, is_scan, where) if text is not None else {'eval': False, 'agg': False, 'scan': False, 'promote_agg': False, 'promote_scan': False}
+                py = {'eval': bool(ic.named(ic.binder_keys(t, cls, 'bindings', p, fl, lay))),
+                      'agg': bool(ic.named(ic.binder_keys(t, cls, 'agg_bindings', p, fl, lay))),
+                      'scan': bool(ic.named(ic.binder_keys(t, cls, 'scan_bindings', p, fl, lay))),
+                      'promote_agg': _bool_method(t, cls, 'renderable_uses_agg_context', p, fl, lay),
+                      'promote_scan': _bool_method(t, cls, 'renderable_uses_scan_context', p, fl, lay)}
+                cons = f'{cls.key()}::child {label}' + (f' [is_scan={is_scan}]' if SCN in fl else '')
+                diff = sorted(k for k in py if py[k] != sc[k])
+                if not diff:
+                    ctx.ok('R16', cons, {k: v for k, v in py.items() if v})
+                elif (cls.name, label) in SCOPE_DEVIATIONS and set(diff) <= SCOPE_DEVIATIONS[(cls.name, label)][0] and all(py[k] for k in diff):
+                    # (only ever in the direction "Python binds / switches more than the engine")
+                    ctx.ok('R16', cons, {'exception': SCOPE_DEVIATIONS[(cls.name, label)][1], 'differs': diff}, nontrivial=False)
+                else:
+                    words = {'eval': 'binds names in the value scope', 'agg': 'binds names in the aggregation scope', 'scan': 'binds names in the scan scope',
+                             'promote_agg': 'evaluates the child in the aggregation scope', 'promote_scan': 'evaluates the child in the scan scope'}
+                    d0 = diff[0]
+                    r = ic.binder_func(cls, 'bindings') or ic.binder_func(cls, 'agg_bindings') or ic.binder_func(cls, 'scan_bindings') or cls.resolve_nonroot('renderable_uses_agg_context')
+                    ctx.bad('R16', cons, f'for child `{label}` the Python node {"" if py[d0] else "does not "}{words[d0].replace("binds", "bind" if not py[d0] else "binds").replace("evaluates", "evaluate" if not py[d0] else "evaluates")} '
+                            f'but the engine ({where}) does{"" if sc[d0] else " not"} ({", ".join(diff)} differ): the renderer scopes a shared sub-term that uses the name against '
+                            f'the wrong environment - its bind depth is looked up in a context that does not hold the name, or it is lifted into a Let where the engine '
+                            f'expects an AggLet', r[0].mod.path if r else cls.mod.path, r[1].lineno if r else cls.node.lineno)
 
 
 def check_scala_positions(ctx: Ctx, t: ic.Table) -> None:
@@ -2824,6 +3022,7 @@ def run(ctx: Ctx) -> None:
     ctx.rule('R13', 'marking, look-up and emission classify value / agg / scan scope identically and use matching tables and binders; lets are emitted in completion order', 9)
     ctx.rule('R14', 'only non-effectful non-stream nodes are marked for lifting; each pass keys its tables by the node whose bind depth it computed', 9)
     ctx.rule('R15', 'children that must be blocks are blocks: relational nodes, aggregation-scope openers, lazily evaluated branches', 9)
+    ctx.rule('R16', 'per child: the scope (eval / agg / scan) names are bound in and the context switch agree with the engine (Binds.scala Bindings / AggEnv)', 100)
     ctx.assume('binder names at the frozen raw-rendered sites are Env.get_uid() identifiers (construction sites listed in RAW_RENDERED)')
     ctx.assume('the Scala IR parser reads binder names in the order head_str emits them (argument order is not compared)')
     t = ic.load_table()
@@ -2840,7 +3039,7 @@ def run(ctx: Ctx) -> None:
             declined.append(e)
             return None
 
-    for chk in (check_bound_variables, check_head, check_binder_methods, check_typing_position, check_scala_positions, check_context_switch,
+    for chk in (check_bound_variables, check_head, check_binder_methods, check_typing_position, check_scala_positions, check_scala_scopes, check_context_switch,
                 check_capability, check_wrappers, check_renderer, check_depths, check_child_context, check_free_props, check_free_equations, check_env_bind, check_new_block):
         attempt(chk)
     m = t.modules['renderer.py']
